@@ -255,7 +255,7 @@ def h_fault(kind):
 def obligations(tier):
     thorough = tier == "thorough"
     val = []
-    for n in range(0, (9 if thorough else 7)):
+    for n in range(0, (10 if thorough else 7)):
         val.append(dict(field="upgrade", n=n))
         val.append(dict(field="connection", n=n))
     # near misses: the right token with 1..2 (3) symbolic characters inserted / substituted at every position
@@ -281,7 +281,7 @@ def obligations(tier):
     return [
         Obligation("H-val", h_val, val, bounds="Upgrade / Connection: every ASCII string of length 0..%d, plus the right token with 1..%d symbolic characters inserted or "
                    "substituted at every position (separators, spaces, case, look-alikes); accept with a symbolic prefix of 0..5 chars over a symbolic "
-                   "3-char key; subprotocol 0..4 chars against 1..2 offered" % (8 if thorough else 6, 3 if thorough else 2),
+                   "3-char key; subprotocol 0..4 chars against 1..2 offered" % (9 if thorough else 6, 3 if thorough else 2),
                    must_cover=["accepted", "rejected"], budget_s=2400, kernel=["_handshake._validate"]),
         Obligation("H-conn", h_conn, conn, bounds="status code symbolic over 100..599 (3 symbolic digits) x catalogued Upgrade / Connection variants (right, case, "
                    "token list, spaces, wrong, missing) x accept {this key, another key, garbled, missing, upper-case} x subprotocol {not offered, right, "
